@@ -11,6 +11,7 @@ from __future__ import annotations
 import vlib
 import fsharness as H
 from props import _stateful as S
+from props import _ftp as F
 
 KINDS = ["mem", "os", "sub-mem", "sub-os", "wrap-mem", "mount", "mount-root", "multi", "zip-w", "temp"]
 
@@ -188,58 +189,82 @@ def run(rep, tier, seed, deep=False):
     rep.rule = ("%d states per backend %s (reached by random histories) x one call per method with each path argument replaced by %d "
                 "equivalent spellings (leading/trailing/double slash, './', detours through existing and missing names), each on a fresh copy "
                 "of the state; results, exception classes and resulting trees must coincide; distinct = distinct (backend, op, state)" % (n_states, KINDS, k))
-    rep.assumptions = ["mount points are fixtures (steered)", "exists/isdir/isfile may return False instead of raising"]
+    rep.assumptions = ["mount points are fixtures (steered)", "exists/isdir/isfile may return False instead of raising",
+                       "FTPFS (thorough tier only): loopback pyftpdlib 1.5.10 server, MLSD and LIST variants, 25 states x every method x 5 "
+                       "spellings per path + 30 same-object histories each; connection errors are infrastructure (retried, never a verdict)"]
     all_ops = H.QUERIES + H.MUT1 + H.MUT2
+    def variant_phase(kind, n_states, k):
+        for st in range(n_states):
+            steps = H.run_history(kind, rng, rng.randint(1, 10), st, gen=lambda r, sn, nm: H.gen_op(r, sn, ["a", "b", "c d"], spelling=False))
+            snap = steps[-1].post if steps and steps[-1].post is not None else []
+            rep.programs += 1
+            for name in all_ops:
+                base_op = None
+                for _ in range(20):
+                    op = make_op(rng, name, snap)
+                    if S.steer(kind, op):
+                        base_op = op
+                        break
+                if base_op is None:
+                    continue
+                npaths = 2 if name in H.MUT2 else 1
+                results = []
+                variants = []
+                for pos in range(1, npaths + 1):
+                    clean = "/".join(c for c in base_op[pos].split("/") if c and c != ".")
+                    for sp in spellings(rng, clean, snap, k):
+                        try:
+                            if norm(sp) != norm(clean):
+                                continue
+                        except Exception:
+                            continue
+                        v = list(base_op)
+                        v[pos] = sp
+                        variants.append(tuple(v))
+                for v in variants:
+                    impl, post = run_variant(kind, snap, v)
+                    if kind in H.FTP_KINDS and F.is_conn_error(impl):
+                        # connection trouble is infrastructure: once more on a fresh server, else give the case up
+                        rep.count("ftp/connection-error-retried")
+                        impl, post = run_variant(kind, snap, v)
+                        if F.is_conn_error(impl):
+                            rep.count("ftp/connection-error-case-abandoned")
+                            if rep.histogram["ftp/connection-error-case-abandoned"] > 5:
+                                raise vlib.Infra("repeated connection errors against the loopback FTP server: %r" % (impl[1],))
+                            results = []
+                            break
+                    rep.evaluations += 1
+                    results.append((v, impl[:2], None if post is None else tuple(H.canon_tree(post))))
+                rep.nontrivial(kind, name, H.enc_tree(snap), base_op[1:])
+                rep.count(name)
+                if not results:
+                    continue
+                ref = results[0]
+                for r in results[1:]:
+                    if (r[1] != ref[1] or r[2] != ref[2]):
+                        what = "result" if r[1] != ref[1] else "tree"
+                        rep.violation({"backend": kind, "pre_tree": [[e[0], e[1]] + ([e[2].decode("latin-1")] if e[0] == "F" else []) for e in snap],
+                                       "op_a": H.op_json(ref[0]), "op_b": H.op_json(r[0]), "a": list(ref[1]), "b": list(r[1])},
+                                      "%s.%s: spellings %r and %r differ in %s: %s vs %s (tree %r)" % (
+                                          kind, name, ref[0][1:], r[0][1:], what, ref[1], r[1], [e[:2] for e in snap][:8]),
+                                      found_input=True, signature="C11/%s/%s/%s" % (kind, name, what))
+                        break
+
     try:
         for kind in KINDS:
-            for st in range(n_states):
-                steps = H.run_history(kind, rng, rng.randint(1, 10), st, gen=lambda r, sn, nm: H.gen_op(r, sn, ["a", "b", "c d"], spelling=False))
-                snap = steps[-1].post if steps and steps[-1].post is not None else []
-                rep.programs += 1
-                for name in all_ops:
-                    base_op = None
-                    for _ in range(20):
-                        op = make_op(rng, name, snap)
-                        if S.steer(kind, op):
-                            base_op = op
-                            break
-                    if base_op is None:
-                        continue
-                    npaths = 2 if name in H.MUT2 else 1
-                    results = []
-                    variants = []
-                    for pos in range(1, npaths + 1):
-                        clean = "/".join(c for c in base_op[pos].split("/") if c and c != ".")
-                        for sp in spellings(rng, clean, snap, k):
-                            try:
-                                if norm(sp) != norm(clean):
-                                    continue
-                            except Exception:
-                                continue
-                            v = list(base_op)
-                            v[pos] = sp
-                            variants.append(tuple(v))
-                    for v in variants:
-                        impl, post = run_variant(kind, snap, v)
-                        rep.evaluations += 1
-                        results.append((v, impl[:2], None if post is None else tuple(H.canon_tree(post))))
-                    rep.nontrivial(kind, name, H.enc_tree(snap), base_op[1:])
-                    rep.count(name)
-                    if not results:
-                        continue
-                    ref = results[0]
-                    for r in results[1:]:
-                        if (r[1] != ref[1] or r[2] != ref[2]):
-                            what = "result" if r[1] != ref[1] else "tree"
-                            rep.violation({"backend": kind, "pre_tree": [[e[0], e[1]] + ([e[2].decode("latin-1")] if e[0] == "F" else []) for e in snap],
-                                           "op_a": H.op_json(ref[0]), "op_b": H.op_json(r[0]), "a": list(ref[1]), "b": list(r[1])},
-                                          "%s.%s: spellings %r and %r differ in %s: %s vs %s (tree %r)" % (
-                                              kind, name, ref[0][1:], r[0][1:], what, ref[1], r[1], [e[:2] for e in snap][:8]),
-                                          found_input=True, signature="C11/%s/%s/%s" % (kind, name, what))
-                            break
+            variant_phase(kind, n_states, k)
         same_object_phase(rep, rng, KINDS + ["cachedir-os", "mount-nested", "multi2"], 8 if quick else 60, k)
         same_object_phase(rep, rng, ["cachedir-mem", "mount", "mount-nested"], 60 if quick else 400, k)
         same_object_phase(rep, rng, ["os-links"], 10 if quick else 120, k)
+        if not quick:
+            # FTPFS against a loopback pyftpdlib server, MLSD and LIST variants (thorough tier only, small budget:
+            # every variant runs on a server of its own, ~15 ms)
+            import time as _time
+            t_ftp = _time.time()
+            for kind in F.KINDS:
+                variant_phase(kind, 25 * (3 if deep else 1), 5)
+            same_object_phase(rep, rng, F.KINDS, 30, 5)
+            rep.extra["ftp_seconds"] = round(_time.time() - t_ftp, 1)
         rep.sample({"clean": "a/b", "spellings": spellings(rng, "a/b", [("D", "a"), ("F", "a/b", b"")], 8)})
     finally:
         H.cleanup_scratch()
